@@ -289,7 +289,7 @@ func signL22On[GE algebra.PrimeGroupElement[GE, S], S algebra.PrimeFieldElement[
 func l22Line[GE algebra.PrimeGroupElement[GE, S], S algebra.PrimeFieldElement[S], M schnorrlike.Message](d *l22Desc[GE, S, M], np namedPolicy, km *keyMat[GE, S], q quorumCase, api, msgClass string, comp compiler.Name) {
 	ev := newSignEv("lindell22", d.name, d.g.name, np, km.src, q, api, msgClass)
 	ev["comp"] = string(comp)
-	defer func() { w.Emit(ev) }()
+	defer emitSign(ev)
 	if km.err != "" {
 		ev["keyErr"] = km.err
 		return
